@@ -51,6 +51,17 @@ def verdict(mut, opts, all_cols):
         if kind == 'float_large' and p is None and mut.get('delta', 1) < 1e-5:
             return 'unspecified', 'default precision'
         return 'fail', 'a checked value differs by more than the precision'
+    if kind == 'retype_and_value':
+        # a wider column type on the actual side AND a value that differs by delta >= 0.5
+        if cond and mut.get('row_filtered_by_condition') is not False:
+            return 'unspecified', 'mutated row may be filtered out by the condition'
+        if sortby and col in (sortby or []):
+            return 'unspecified', 'sorting on the mutated column'
+        if selected(cd, all_cols, [col]) == 'none':
+            return verdict(dict(mut, kind='retype'), opts, all_cols)
+        if p == 0 and mut.get('delta', 1) <= 0.5:
+            return 'unspecified', 'half a unit at precision 0 (rounding to even)'
+        return 'fail', 'a checked value differs by more than the precision, whatever the column types are'
     if kind == 'rename':
         sel = selected(ct, all_cols, [col])
         if sel == 'all':
